@@ -133,6 +133,46 @@ def skel_src(s, ind, cn, rn):
 
 DYNAMIC_TYPE_ERROR = "type-error"
 
+# (d) catalogue of boundary cases of the typing rules: values that reach a typed position through an element pointer,
+# an optional box, a fixed-shape list, an alias, Self ... ; each entry: (name, body lines)
+_PICK = ["pick = fn(l: [int...], i: int) -> int {", "\treturn l[i]", "}", "a: [int...] = [1, 2]"]
+_SUM3 = ["sum3 = fn(l: [int...]) -> int {", "\treturn l[0] + l[2] - l[1]", "}"]
+CATALOGUE = {
+    "elemptr-in-list-literal-arg": _PICK + _SUM3 + ["print typeof sum3([7, pick(a, 1), 9])", "print sum3([7, pick(a, 1), 9])"],
+    "elemptr-in-list-literal-var": _PICK + ["b: [int...] = [pick(a, 0), 5]", "print typeof (b[0] - b[1])", "print b[0] - b[1]"],
+    "elemptr-in-map-literal": _PICK + ["mm = map[str, int] {\"k\": pick(a, 1)}", "w = get mm[\"k\"]", "print typeof (w + 1)", "print w + 1"],
+    "elemptr-returned-twice": _PICK + ["again = fn() -> int {", "\treturn pick(a, 1)", "}", "print typeof (again() * 2)", "print again() * 2"],
+    "elemptr-as-argument": _PICK + ["inc = fn(x: int) -> int {", "\treturn x + 1", "}", "print typeof inc(pick(a, 0))", "print inc(pick(a, 0))"],
+    "elemptr-pushed": _PICK + ["b: [int...] = []", "b.push(pick(a, 1))", "a[1] = 7", "print typeof b[0]", "print b[0]"],
+    "elemptr-in-nested-list": _PICK + ["nn: [[int...]...] = [[pick(a, 1)]]", "q0 = nn[0]", "print typeof (q0[0] + 1)", "print q0[0] + 1"],
+    "elemptr-field-store": _PICK + ["oc = C(pick(a, 1))", "print typeof (oc.v + 1)", "print oc.v + 1"],
+    "elemptr-str-concat": _PICK + ["print typeof (\"v\" + pick(a, 1))", "print \"v\" + pick(a, 1)"],
+    "elemptr-compare": _PICK + ["print typeof (pick(a, 0) < pick(a, 1))", "print pick(a, 0) < pick(a, 1)"],
+    "elemptr-map-value-returned": ["mv = map[str, int]", "mv[\"k\"] = 4", "gm = fn() -> int? {", "\treturn mv[\"k\"]", "}",
+                                   "lst2: [int?...] = [gm(), nil]", "print typeof lst2[0]", "print lst2[0]"],
+    "field-ptr-returned": ["oc = C(3)", "gf = fn() -> int {", "\treturn oc.v", "}", "lst3: [int...] = [gf(), 1]", "oc.v = 9",
+                           "print typeof (lst3[0] - lst3[1])", "print lst3[0] - lst3[1]"],
+    "boxed-optional-arith": ["bo = \"5\".parse_int()", "print typeof (bo + 1)", "print bo + 1"],
+    "boxed-optional-compare": ["bo = \"5\".parse_int()", "print typeof (bo < 9)", "print bo < 9"],
+    "boxed-optional-eq": ["bo = \"5\".parse_int()", "print typeof (bo == 5)", "print bo == 5"],
+    "boxed-optional-index-of": ["hay: [int...] = [4, 5]", "io = hay.index_of(5)", "print typeof (io * 2)", "print io * 2"],
+    "boxed-optional-in-list": ["bo = \"5\".parse_int()", "lo: [int?...] = [bo]", "print typeof lo[0]", "print lo[0]"],
+    "boxed-optional-or": ["bo = \"x\".parse_int()", "print typeof ((bo) or 3)", "print (bo) or 3"],
+    "boxed-optional-get": ["bo = \"5\".parse_int()", "print typeof (get bo)", "print get bo"],
+    "fixed-list-index-types": ["const fx = [1, \"a\", 2.5]", "print typeof fx[0]", "print fx[0]", "print typeof fx[1]", "print fx[1]"],
+    "fixed-list-last": ["const fx = [1, \"a\", 2.5]", "print typeof fx[2]", "print fx[2]"],
+    "unpack-types": ["[u1, u2] = [1, \"a\"]", "print typeof u1", "print u1", "print typeof u2", "print u2"],
+    "alias-arith": ["type M int", "am: M = 4", "print typeof (am * 2)", "print am * 2"],
+    "self-returning-method": ["class S {", "\tn: int", "\tconstructor(self) {", "\t\tself.n = 1", "\t}", "\tfn me(self) -> Self {", "\t\treturn self",
+                              "\t}", "}", "so = S()", "print typeof so.me().n", "print so.me().n"],
+    "str-index-char": ["st = \"héllo\"", "print typeof st[1]", "print st[1]"],
+    "int-div-float": ["print typeof (7 / 2.0)", "iv = 7", "fv = 2.0", "print iv / fv"],
+    "byte-plus-int": ["by = 0b11", "print typeof (by + 1)", "print by + 1"],
+    "map-missing-key": ["mk = map[str, int]", "print typeof mk[\"z\"]", "print mk[\"z\"]"],
+    "list-of-fn": ["fa = fn() -> int {", "\treturn 1", "}", "lf: [fn() -> int...] = [fa]", "f0 = lf[0]", "print typeof f0()", "print f0()"],
+    "optional-field-nil": ["class O {", "\tf: int?", "\tconstructor(self) {", "\t\tself.f = nil", "\t}", "}", "oo = O()", "print typeof oo.f", "print oo.f"],
+}
+
 
 class C02(Check):
     id = "C02"
@@ -142,7 +182,9 @@ class C02(Check):
             "str?, function, class, alias); (b) compatibility: every (expected type, supplied type) pair x 8 typed positions (annotated "
             "initialiser, re-assignment, argument, return value, pushed list element, map value, field assignment, `or` fallback); "
             "(c) return-path analysis: every function-body skeleton of depth <= 2 over {if, if/else, else-if, while, from} with return / "
-            "no-return leaves; every accepted skeleton is called with all condition vectors and its result stored and printed.  The "
+            "no-return leaves; every accepted skeleton is called with all condition vectors and its result stored and printed; (d) a catalogue "
+            "of boundary cases (values reaching a typed position through an element / field pointer, a boxed optional, a fixed-shape list, "
+            "unpacking, an alias, Self).  The "
             "compiler's own verdict partitions the space; only accepted programs are judged.  Non-trivial = accepted by the compiler.")
     assumptions = ["failure classes of DESIGN Appendix A: assert, nil, range, zero divisor, overflow, conversion, stack are the defined "
                    "dynamic failures; anything else is a dynamic type error", "run-time kinds observed through hook H2"]
@@ -155,7 +197,8 @@ class C02(Check):
         b = [("compat", pos, t1, t2) for pos in ("init", "reassign", "arg", "ret", "push", "mapval", "field", "or")
              for t1 in ts for t2 in ts]
         c1 = [("ret", i) for i in range(len(skeletons(1)))]
-        ls = [("La-unary", u), ("La-operator-table", a), ("Lb-compatibility", b), ("Lc-return-paths-depth1", c1)]
+        d = [("cat", name) for name in CATALOGUE]
+        ls = [("Ld-catalogue", d), ("La-unary", u), ("La-operator-table", a), ("Lb-compatibility", b), ("Lc-return-paths-depth1", c1)]
         c2 = [("ret2", i) for i, s in enumerate(skeletons(2)) if count_conds(s) <= 4]
         if tier == "quick":
             c2 = c2[::9]
@@ -205,6 +248,8 @@ class C02(Check):
                             decl("init", t1).replace("const ", "") + "h = H(init)\nh.f = src\nprint typeof h.f\nprint h.f\n"), 1
             if pos == "or":
                 return s + decl("x", t1) + "r = (x) or src\nprint typeof r\nprint r\n", 1
+        if k == "cat":
+            return PRELUDE + "\n".join(CATALOGUE[case[1]]) + "\n", 9
         if k in ("ret", "ret2"):
             sk = skeletons(1 if k == "ret" else 2)[case[1]]
             n = count_conds(sk)
@@ -249,6 +294,10 @@ class C02(Check):
             outcome = "ok"
         # typeof text vs run-time kind of the printed value
         lines = res.lines()
+        if kind0 == "cat":
+            for tline, vline in zip(lines[0::2], lines[1::2]):
+                if tline.startswith("Str:") and ":" in vline and kind_ok(tline[4:], vline.split(":", 1)[0]) is False:
+                    bad("kind-mismatch", f"typeof says `{tline[4:]}` but the value observed at run time is {vline[:60]}")
         if kind0 in ("op", "un", "compat") and len(lines) >= 2:
             pairs = []
             if kind0 == "op" and case[1] == "?=":
@@ -268,7 +317,7 @@ class C02(Check):
 
     def finish(self, stats, tier):
         errs = []
-        for g in ("op", "un", "compat", "ret"):
+        for g in ("op", "un", "compat", "ret", "cat"):
             if not stats["tags"].get(f"acc-{g}"):
                 errs.append(f"vacuity: no accepted program in group {g}")
         stats["extra_coverage"] = {"accepted": sum(v for k, v in stats["tags"].items() if k.startswith("acc-")),
